@@ -1119,42 +1119,49 @@ class PDFDocument:
         """Reads XRefs from the given location."""
         if visited is None:
             visited = set()
-        if start in visited:
-            # a /Prev or /XRefStm chain that leads back to a section already read
-            return
-        visited.add(start)
-        try:
-            parser.seek(start)
-        except (OverflowError, ValueError):
-            raise PDFNoValidXRef(f"Invalid xref position: {start}")
-        parser.reset()
-        try:
-            (pos, token) = parser.nexttoken()
-        except PSEOF:
-            raise PDFNoValidXRef("Unexpected EOF")
-        log.debug("read_xref_from: start=%d, token=%r", start, token)
-        if isinstance(token, int):
-            # XRefStream: PDF-1.5
-            parser.seek(pos)
+        # The sections still to read are kept on an explicit stack (a file may
+        # carry more revisions than the interpreter allows nested calls): the
+        # /XRefStm section of a hybrid file first, then the previous revision.
+        pending: List[object] = [start]
+        while pending:
+            start = int_value(pending.pop())
+            if start in visited:
+                # a /Prev or /XRefStm chain that leads back to a section
+                # already read
+                continue
+            visited.add(start)
+            try:
+                parser.seek(start)
+            except (OverflowError, ValueError):
+                raise PDFNoValidXRef(f"Invalid xref position: {start}")
             parser.reset()
-            xref: PDFBaseXRef = PDFXRefStream()
-            xref.load(parser)
-        else:
-            if token is not parser.KEYWORD_XREF:
-                raise PDFNoValidXRef(f"xref keyword not found at {start}: {token!r}")
-            parser.nextline()
-            xref = PDFXRef()
-            xref.load(parser)
-        xrefs.append(xref)
-        trailer = xref.get_trailer()
-        log.debug("trailer: %r", trailer)
-        if "XRefStm" in trailer:
-            pos = int_value(trailer["XRefStm"])
-            self.read_xref_from(parser, pos, xrefs, visited)
-        if "Prev" in trailer:
-            # find previous xref
-            pos = int_value(trailer["Prev"])
-            self.read_xref_from(parser, pos, xrefs, visited)
+            try:
+                (pos, token) = parser.nexttoken()
+            except PSEOF:
+                raise PDFNoValidXRef("Unexpected EOF")
+            log.debug("read_xref_from: start=%d, token=%r", start, token)
+            if isinstance(token, int):
+                # XRefStream: PDF-1.5
+                parser.seek(pos)
+                parser.reset()
+                xref: PDFBaseXRef = PDFXRefStream()
+                xref.load(parser)
+            else:
+                if token is not parser.KEYWORD_XREF:
+                    raise PDFNoValidXRef(
+                        f"xref keyword not found at {start}: {token!r}"
+                    )
+                parser.nextline()
+                xref = PDFXRef()
+                xref.load(parser)
+            xrefs.append(xref)
+            trailer = xref.get_trailer()
+            log.debug("trailer: %r", trailer)
+            if "Prev" in trailer:
+                # find previous xref
+                pending.append(trailer["Prev"])
+            if "XRefStm" in trailer:
+                pending.append(trailer["XRefStm"])
 
 
 class PageLabels(NumberTree):
